@@ -42,7 +42,7 @@ Markers ==
 Words ==
   [ en |-> <<"zero", "o", "one", "two", "five", "nine", "ten", "twelve", "fifteen", "twenty", "forty", "ninety",
              "hundred", "thousand", "million", "billion", "and", "point", "first", "second", "third", "fifth",
-             "twentieth", "hundredth", "twenty-five", "thirty-first", "plus", "is", "uh", "apples", "the", "cars", "seconds">>,
+             "twentieth", "hundredth", "twenty-five", "thirty-first", "plus", "is", "uh", "apples", "the", "cars", "seconds", "a", "an", "millions", "oh">>,
     fr |-> <<"zéro", "un", "deux", "six", "sept", "neuf", "dix", "onze", "seize", "vingt", "trente", "soixante",
              "quatre-vingt", "quatre-vingts", "cent", "cents", "mille", "million", "milliard", "et", "virgule",
              "premier", "première", "deuxième", "cinquième", "vingtième", "vingt-cinq", "soixante-dix",
@@ -84,7 +84,7 @@ AmbigParts ==
   [ fr |-> <<"le vingt neuf", "du cent neuf", "un logement neuf", "le numéro neuf", "un chat neuf", "le neuf", "du neuf", "un neuf deux",
              "le vingt neuf alors voilà bien", "l'appartement neuf", "du pain neuf dix", "le mille neuf cent",
              "la première", "le premier", "vingt-et-unième", "vingt-et-unièmes", "neuf cents">>,
-    en |-> <<"o one", "the o", "o", "twenty o", "o apples", "one o two", "o eight hundred", "twenty-first", "twenty-firsts", "the fifth", "two fifths", "a", "an", "millions", "oh">>,
+    en |-> <<"o one", "the o", "o", "twenty o", "o apples", "one o two", "o eight hundred", "twenty-first", "twenty-firsts", "the fifth", "two fifths", "a hundred", "an hour">>,
     es |-> <<"uno dos", "vigésimo primero", "vigésima primera", "vigésimos primeros", "centésimo", "centésima", "un doceavo", "dos doceavos">>,
     pt |-> <<"um dois", "vigésimo primeiro", "vigésima primeira", "vigésimos primeiros", "centésimo", "centésima">>,
     it |-> <<"uno due", "il ventitreesimo giorno", "la ventitreesima volta", "centoventesimo", "centoventesima", "duecentesimi", "duecentesime",
